@@ -24,6 +24,8 @@ func main() {
 		histCmd(out, *seed, *tier)
 	case "balloon":
 		balloonCmd(out, *seed, *tier)
+	case "canon":
+		canonCmd(out, *seed, *tier)
 	default:
 		fmt.Fprintln(os.Stderr, "unknown command", cmd)
 		os.Exit(2)
